@@ -190,10 +190,13 @@ Definition is_bare (o : opt) : bool :=
 (* a text given to o: o takes values and the text converts to the declared type *)
 Definition text_ok (o : opt) (s : str) : bool :=
   o_accepts o && res_ok (parse_typed (o_type o) (o_nullable o) (VStr s)).
-(* a separately written value / a positional before "--": not empty (an empty token after an
+(* a separately written value (or a command-name spelling): not empty (an empty token after an
    option is swallowed as its value and then dropped) and not starting with "-" (it would be read
    as an option) *)
 Definition plain_tok (s : str) : bool := nonempty s && negb (starts_dash s).
+(* a positional before "--": anything that is not read as an option, i.e. does not start with "-"
+   - the empty token included - or is "-" itself *)
+Definition pos_tok (s : str) : bool := negb (starts_dash s) || str_eqb s [DASH].
 
 Definition last_ok (f f' : fmt) (l : opt * glast) : bool :=
   let o := fst l in
@@ -223,10 +226,10 @@ Definition item_ok (f f' : fmt) (it : item) : bool :=
       | None => match fl with _ :: _ :: _ => true | _ => false end
       | Some l => match fl with _ :: _ => true | [] => false end && last_ok f f' l
       end
-  | IPos s => plain_tok s
+  | IPos s => pos_tok s
   end.
 (* an omitted optional value must not be followed by a positional (the look-ahead of
-   _add_long_option would take it as the value) *)
+   _add_long_option would take it as the value, and would swallow an empty token), except "-" *)
 Definition looks_ahead (it : item) : bool :=
   match it with IBare _ _ => true | IGroup _ (Some (_, GBare)) => true | _ => false end.
 Fixpoint items_ok (f f' : fmt) (l : list item) : bool :=
@@ -234,7 +237,7 @@ Fixpoint items_ok (f f' : fmt) (l : list item) : bool :=
   | [] => true
   | it :: r =>
       item_ok f f' it &&
-      (if looks_ahead it then match r with IPos _ :: _ => false | _ => true end else true) &&
+      (if looks_ahead it then match r with IPos s :: _ => str_eqb s [DASH] | _ => true end else true) &&
       items_ok f f' r
   end.
 
